@@ -153,6 +153,22 @@ with un_item (it : nitem) {struct it} : kitem * list kelem :=
 Definition un_list (e : nelem) : list kelem := let (k, d) := un_elem e in k :: d.
 Definition unnest (d : ndoc) : kdoc := flat_map un_list d.
 
+(** [cull_uuid]: the same tree of blocks with the id line of every inline block left out *)
+Fixpoint erase_elem (top : bool) (e : nelem) {struct e} : nelem :=
+  match e with
+  | NElem ty id nm attrs =>
+      NElem ty (if top then id else None) nm
+        ((fix go (l : list nattr) : list nattr := match l with [] => [] | a :: r => erase_attr a :: go r end) attrs)
+  end
+with erase_attr (a : nattr) {struct a} : nattr :=
+  match a with
+  | NAttr an at_ arr items =>
+      NAttr an at_ arr ((fix go (l : list nitem) : list nitem := match l with [] => [] | it :: r => erase_item it :: go r end) items)
+  end
+with erase_item (it : nitem) {struct it} : nitem :=
+  match it with NInline e => NInline (erase_elem false e) | x => x end.
+
+
 (** every element is written exactly once: no id is registered twice *)
 Definition written_once (d : ndoc) : bool := nodup_str (map id_text (unnest d)).
 
